@@ -33,7 +33,8 @@ func (f Function) STRewrite(symTbl SymTbl) Type {
 	parameters := f.Parameters.STRewrite(symTbl).(List)
 	body := f.Body.STRewrite(symTbl)
 
-	localCnt := len(symTbl[len(symTbl)-1])
+	// a repeated parameter name shares one slot in the scope, the frame still holds every argument
+	localCnt := max(len(symTbl[len(symTbl)-1]), len(f.Parameters.Elems))
 
 	// pop the lexical scope by ignoring slc
 
